@@ -1198,7 +1198,7 @@ def c03(m, o):
 
     rb, rs = base.get_runner(p, jit=False), strat.get_runner(p, jit=False)
     ns = len(strat.compartments)
-    for k in range(o.get("states", 3)):
+    for k in range(0 if o.get("proportionate") else o.get("states", 3)):
         xs = np.array([rng.randint(1, 400) / 4 for _ in range(ns)])
         t = rng.randint(0, 20) / 4
         a = rs.impl_dict["one_step"](p, t, jnp.array(xs))
